@@ -22,6 +22,7 @@ def _directives():
         ("linemarker", layout.line_directive(7, "g.c", flags=(1, 3), keyword=False)),
         ("line", layout.line_directive(9, None, keyword=True)),
         ("line-file", layout.line_directive(11, "h.h", keyword=True)),
+        ("line-zero", layout.line_directive(0, "z.h", keyword=True)),
         ("linemarker-escaped-name", layout.line_directive(13, 'e\\"s c.h', flags=(2,), keyword=False)),
     ]
 
